@@ -110,7 +110,21 @@ def plastex_reset():
         if getattr(c, 'disableMath', False):
             leaked.append('disableMath')
             c.disableMath = False
+    # class-level attributes patched by document classes / register assignments
+    global _class_snap
+    if _class_snap is None:
+        import plasTeX.Base            # noqa: make sure the base macro classes exist
+        _class_snap = ClassAttrSnapshot().take()
+    else:
+        leaked.extend(_class_snap.restore())
     return leaked
+
+
+_class_snap = None
+
+
+def _unused():
+    pass
 
 
 class ClassAttrSnapshot(object):
